@@ -287,21 +287,24 @@ def camp_system(ctx):
     drive(ctx, sys_cases(), body, 2 if ctx.tier == 'quick' else 40, name='system', shrink=False, budget_s=160 if ctx.tier == 'quick' else 1500)
     if ctx.shard == 0:
         # repetition in fresh processes with different hash seeds
-        path = os.path.join(build.cases_root(), 'kundur/kundur_full.xlsx')
-        hashes = []
-        for hs in ('1', '77'):
-            env = dict(os.environ, PYTHONHASHSEED=hs)
-            r = subprocess.run([sandbox.PY, '-c', _REPEAT % (sandbox.REPO, sandbox.VERIF, path)], env=env, stdout=subprocess.PIPE,
-                               stderr=subprocess.STDOUT, text=True)
-            line = [ln for ln in r.stdout.splitlines() if ln.startswith('HASH')]
-            if not line:
-                raise RuntimeError('repeat run failed: ' + r.stdout[-500:])
-            hashes.append(line[0])
-        ctx.evaluated()
-        ctx.count('repeat:fresh_process_pairs')
-        if hashes[0] != hashes[1]:
-            ctx.fail('fresh_process_not_bit_identical', dict(hashes=hashes), sig=dict())
-        ctx.nontrivial(dict(repeat='kundur_full'), sample=dict(repeat=hashes))
+        for rel in ('kundur/kundur_full.xlsx', 'ieee14/ieee14_full.xlsx'):
+            path = os.path.join(build.cases_root(), rel)
+            hashes = []
+            # string hashing decides the iteration order of sets and of dicts keyed by hash: four seeds give 4! / ... chances
+            # for an order-dependent summation to show
+            for hs in ('1', '2', '3', '77'):
+                env = dict(os.environ, PYTHONHASHSEED=hs)
+                r = subprocess.run([sandbox.PY, '-c', _REPEAT % (sandbox.REPO, sandbox.VERIF, path)], env=env, stdout=subprocess.PIPE,
+                                   stderr=subprocess.STDOUT, text=True)
+                line = [ln for ln in r.stdout.splitlines() if ln.startswith('HASH')]
+                if not line:
+                    raise RuntimeError('repeat run failed: ' + r.stdout[-500:])
+                hashes.append(line[0])
+            ctx.evaluated()
+            ctx.count('repeat:fresh_process_sets')
+            if len(set(hashes)) != 1:
+                ctx.fail('fresh_process_not_bit_identical', dict(case=rel, hashes=hashes), sig=dict())
+            ctx.nontrivial(dict(repeat=rel), sample=dict(repeat=hashes))
 
 
 CAMPAIGNS = {
